@@ -51,7 +51,7 @@ def run(ck):
     ck.require_reach("mdmf-in-place-update-ok", "sdmf-update-ok", "update-append-ok",
                      "update-straddles-segment-boundary", "update-grows-across-pow2-segment-count",
                      "modify-changed-content", "modify-no-op", "overwrite-ok", "upload-with-servermap-ok",
-                     "writer-node-fresh", "writer-node-reused", "reader-node-fresh", "reader-node-persistent",
+                     "writer-node-fresh", "writer-node-reused", "writer-client-defaults-differ-from-file", "reader-node-fresh", "reader-node-persistent",
                      "partial-read-straddles-segment-boundary", "default-segment-size-multi-segment",
                      "multi-segment-mdmf",
                      "prefix-boundary-mdmf-block-end-4001", "prefix-boundary-sdmf-block-end-4001",
@@ -120,7 +120,15 @@ def gen_case(rng, tier, default_seg, pb_slot=None):
         S = next_multiple(rng.choice([10, 100, 1000, 40000]), k)   # only a unit for boundary-biased positions
         maxsegs = rng.choice([3.5, 5.3, 9.3])
     maxsize = int(maxsegs * S)
-    return dict(fmt=fmt, k=k, n=n, nservers=nservers, profile=profile, segsize=segsize, S=S, maxsize=maxsize,
+    # the client may have been reconfigured since the file was made (shares.needed / shares.total in tahoe.cfg): fresh
+    # writer clients of such a history have other default encoding parameters than the file
+    alt_kn = None
+    if rng.random() < .25:
+        n2 = n if rng.random() < .5 else rng.randint(1, 8)
+        k2 = rng.randint(1, min(4, n2))
+        if (k2, n2) != (k, n):
+            alt_kn = (k2, n2)
+    return dict(fmt=fmt, k=k, n=n, nservers=nservers, profile=profile, segsize=segsize, S=S, maxsize=maxsize, alt_kn=alt_kn,
                 nops=rng.randint(2, 8), p_reuse=rng.choice([0.0, 0.5, 0.8, 1.0, 1.0]),
                 reader=rng.choice(["writer", "persistent", "fresh", "mixed", "mixed"]),
                 reader_cap=rng.choice(["rw", "ro"]))
@@ -215,6 +223,8 @@ class History(object):
         self.persistent_reader = None
         self.mutations_ok = 0
         self.pb_sizes = []       # [(size, region, share offset of the region's end)]
+        self.writer_kn = None    # default (k, N) of the current writer's client when they differ from the creator's
+        self.alt_acted = False   # a client with other defaults has operated on the file in this history
 
     # -- helpers
     def client(self):
@@ -352,10 +362,22 @@ class History(object):
             rec["writer"] = "reused"
             self.ck.hit("writer-node-reused")
         else:
-            self.writer_client = self.client()
+            alt = self.p.get("alt_kn")
+            if alt and rng.random() < .6:
+                self.writer_client = self.g.make_client(k=alt[0], happy=1, n=alt[1])
+                self.writer_kn = alt
+                self.ck.hit("writer-client-defaults-differ-from-file")
+            else:
+                self.writer_client = self.client()
+                self.writer_kn = None
             self.writer = self.writer_client.create_node_from_uri(self.wcap)
             rec["writer"] = "fresh"
             self.ck.hit("writer-node-fresh")
+        if self.writer_kn:
+            rec["writer_kn"] = self.writer_kn
+            self.alt_acted = True
+        elif self.alt_acted:
+            rec["after_reconfigured_client"] = True      # the file may by now carry the other client's parameters
         return self.writer
 
     def next_op(self, pb=None):
@@ -530,7 +552,17 @@ class History(object):
         key = "%s-fails-%s-%s" % (opclass, feat, exc)
         frames = [l.strip() for l in res.getTraceback().splitlines() if "/src/allmydata/" in l][-4:]
         where = frames[-1].rsplit(" in ", 1)[-1] if frames else "?"
-        if (opclass == "update-mdmf" and p["nservers"] < p["n"] and feat != "empty-file"
+        differ = rec.get("writer_kn") or rec.get("after_reconfigured_client")
+        if differ and opclass == "update-mdmf" and feat != "empty-file":
+            # Publish.update() encodes with the node's default k/N instead of those of the version it updates
+            key = "update-mdmf-fails-writer-defaults-differ"
+        elif differ and opclass != "create":
+            # a publish by a node that has not downloaded the file uses its client's default N while the goal still lists
+            # the share numbers of the file's N (or stale shares beyond the new N left by such a publish)
+            key = "publish-fails-client-default-n-differs-from-existing-shares"
+        if differ:
+            pass
+        elif (opclass == "update-mdmf" and p["nservers"] < p["n"] and feat != "empty-file"
                 and (exc, where) in (("AssertionError(int)", "_decode_blocks"), ("IndexError", "push_blockhashes"),
                                      ("LayoutInvalid", "put_signature"))
                 or (opclass == "update-mdmf" and p["nservers"] < p["n"] and feat != "empty-file"
@@ -678,6 +710,13 @@ class History(object):
             key = "content-changed-by-failed-" + opclass
             msg = "after %s errbacked (%s), %s %s; the model without the operation has %d bytes" % (
                 opclass, rec.get("error", "?")[:120], what, detail, len(self.model))
+        elif opclass == "update-mdmf" and (rec.get("writer_kn") or rec.get("after_reconfigured_client")):
+            key = "mdmf-update-encodes-with-the-writers-default-k-n"
+            wkn = rec.get("writer_kn") or (self.p["k"], self.p["n"])
+            msg = ("in-place MDMF update(offset=%d, %d bytes) by a node object whose client defaults (k=%d N=%d) differ from the "
+                   "parameters of the file (clients of this history: k=%d N=%d and k=%d N=%d) called back; afterwards %s %s" % (
+                       rec["off"], rec["len"], wkn[0], wkn[1], self.p["k"], self.p["n"], self.p["alt_kn"][0],
+                       self.p["alt_kn"][1], what, detail))
         elif stale:
             key = "mdmf-update-uses-stale-cached-node-size"
             msg = ("in-place MDMF update(offset=%d, %d bytes) on a node object whose cached get_size()=%r is stale (file has %d "
@@ -733,6 +772,17 @@ def firstdiff(a, b):
 # end of a block at share offset 4001; the "prefix-boundary" cases (first 8 cases of every run/shard + 12 % of the rest)
 # derive such sizes from the real offset tables (MDMFSlotWriteProxy / unpack_header of a scratch share) for region ends
 # 3999..4002 and reach them by create, append, overwrite/upload and modify (required reach counters prefix-boundary-*).
+#
+# GENUINE, open as of /repo 940bcb8 (histories in which a client with other default k/N than the file's operates on it -
+# a re-configured client; patches in /var/tmp/c47fix/):
+#   mdmf-update-encodes-with-the-writers-default-k-n, update-mdmf-fails-writer-defaults-differ
+#       mutable/publish.py Publish.update(): required_shares/total_shares come from the node (client defaults until the
+#       node has downloaded the file) instead of the version being updated -> success + unreadable file (k' < k, same N)
+#       or an errback (other combinations).  fix: version[5], version[6].
+#   publish-fails-client-default-n-differs-from-existing-shares
+#       mutable/publish.py Publish.publish(): a node that has not downloaded the file publishes with its client's default N
+#       while the goal lists the existing share numbers of the file's N (MDMFSlotWriteProxy assert shnum < N / SDMF
+#       KeyError).  fix: take k, N of the servermap's best recoverable version.
 #
 # Repaired in /repo after this check reported them: 0eb4d1b (Publish.update used the node's stale cached size),
 # 1699424 (append at a segment-aligned EOF), 73ba509 (servermap update waited only for the last share of each server:
